@@ -71,7 +71,7 @@ m = {
  "version": 1,
  "setup_cmd": "cd /verif && ./build.sh",
  "hooks": {"guard": "verif", "enable": "go build -tags verif (checks build /repo through the replace directive in /verif/go.mod)",
-           "baseline_off_cmd": "cd /repo && go test -vet=off -count=1 -timeout 25m ./...", "source_commits": ["c0562c9"], "add_only": True},
+           "baseline_off_cmd": "cd /repo && GOFLAGS=-mod=mod GOPROXY=off go test -vet=off -count=1 -timeout 25m ./...", "source_commits": ["c0562c9"], "add_only": True},
  "engines": [
   {"name": "wgen", "path": "internal/wgen", "serves_properties": ALL, "kind_free_text": "type-directed generator of well-typed WGSL compute modules: typed AST, printer with token table, reducer, feature gates"},
   {"name": "wref", "path": "internal/wref", "serves_properties": ["C01","C03","C04","C05","C06","C07","C14","C15","C16"], "kind_free_text": "WGSL reference evaluator over the wgen AST (specification side of the differential monitors)"},
@@ -85,7 +85,7 @@ m = {
  ],
  "checks": [],
  "not_applicable": [{"property_id": p, "reason": r} for p, r in sorted(pending.items())],
- "notes": "All checks are runtime monitors over executions of the real compiler; see DESIGN.md.",
+ "notes": "All checks are runtime monitors over executions of the real compiler (DESIGN.md, section 11 = as built). Listed genuine defects: KNOWN_FINDINGS (+ witnesses in findings/); repaired ones are fix: commits in /repo. Seeded changes and what catches them: seeded/RESULTS.md.",
 }
 for p in sorted(checks):
     c = checks[p]
